@@ -187,5 +187,8 @@ MutualExclusion == Cardinality({c \in Clients : pc[c] \in {"one", "put1", "put2"
 \* programs for the cfg files
 P2 == (1 :> <<[op |-> "put", k |-> 1, v |-> <<1, 2>>], [op |-> "put", k |-> 2, v |-> <<2, 2>>], [op |-> "put", k |-> 1, v |-> <<3, 1>>]>>)
    @@ (2 :> <<[op |-> "size", k |-> 0, v |-> <<0, 0>>], [op |-> "get", k |-> 1, v |-> <<0, 0>>], [op |-> "len", k |-> 0, v |-> <<0, 0>>]>>)
+\* a program with Clear against observers (Clear evicts one entry per step under the lock)
+P2c == (1 :> <<[op |-> "put", k |-> 1, v |-> <<1, 1>>], [op |-> "put", k |-> 2, v |-> <<2, 1>>], [op |-> "clear", k |-> 0, v |-> <<0, 0>>], [op |-> "put", k |-> 3, v |-> <<3, 2>>]>>)
+    @@ (2 :> <<[op |-> "len", k |-> 0, v |-> <<0, 0>>], [op |-> "has", k |-> 2, v |-> <<0, 0>>], [op |-> "size", k |-> 0, v |-> <<0, 0>>]>>)
 P3 == P2 @@ (3 :> <<[op |-> "remove", k |-> 2, v |-> <<0, 0>>], [op |-> "has", k |-> 1, v |-> <<0, 0>>], [op |-> "clear", k |-> 0, v |-> <<0, 0>>]>>)
 =============================================================================
